@@ -284,3 +284,19 @@ def run(repo, rep, tier):  # noqa: F811 -- round-6 remedies (core/round6.py)
 _ADDR6C = ' R16.7: an emitted `in (<joined items>)` test is guarded by len(items) > 1 or a trailing comma.'
 EXPLANATION += _ADDR6C
 LEVEL_TEXT += _ADDR6C
+
+
+_run_before_r7a = run
+
+
+def run(repo, rep, tier):  # noqa: F811 -- round-7 remedies / borrowings
+    _run_before_r7a(repo, rep, tier)
+    if getattr(rep, "borrowed", False):
+        return
+    from ..core import typepreds as _tpr7
+    _tpr7.reference_cases(repo, rep, "R02.9", only=("type_name", "get_literal_values"))
+
+
+_ADD_R7A = ' Borrowed: R02.9 restricted to type_name / get_literal_values (Literal values -- schema-supplied strings -- are rendered completely and as valid literals in type names, which are spliced into generated source and digested into method names).'
+EXPLANATION += _ADD_R7A
+LEVEL_TEXT += _ADD_R7A
